@@ -24,7 +24,7 @@ ASSUMPTIONS = ['the fake server follows the Electrum/LBRY-hub address-status pro
                'headers are a mined sim chain connected through the real validator so that Merkle proofs are really checked']
 REQUIRED_HITS = ['Y1.checked', 'Y2.checked', 'Y3.checked', 'Y4.checked', 'Y5.schedules_compared', 'stage.cross_address_spend',
                  'stage.change_notified_before_spent_address', 'stage.mempool_to_block', 'stage.gap_extension', 'stage.funded_at_gap_edge',
-                 'tx.claim', 'tx.update', 'tx.support', 'tx.purchase', 'tx.unconfirmed_parent', 'third_party.p2pk', 'third_party.p2sh',
+                 'tx.claim', 'tx.update', 'tx.support', 'tx.purchase', 'stream.stages', 'stream.notified_while_same_address_update_in_flight', 'tx.unconfirmed_parent', 'third_party.p2pk', 'third_party.p2sh',
                  'third_party.segwit', 'third_party.op_return', 'third_party.claim_script_hash', 'chaos.points']
 MAXT = (1 << 255) - 1
 PREFIX = b'\x55'
@@ -419,7 +419,10 @@ async def run_schedule(rec, scen, sched_seed, case):
     died = []
     orig_update = ledger.update_history
 
+    inflight = {}
+
     async def watched_update(address, remote_status, *a, **k):
+        inflight[address] = inflight.get(address, 0) + 1
         try:
             return await orig_update(address, remote_status, *a, **k)
         except asyncio.CancelledError:
@@ -430,6 +433,8 @@ async def run_schedule(rec, scen, sched_seed, case):
             inner = [f for f in tb if '/lbry/' in f.filename][-1:] or tb[-1:]
             died.append((type(e).__name__, f'{inner[0].filename.split("/lbry/")[-1]}:{inner[0].name}', str(e)[:200]))
             raise
+        finally:
+            inflight[address] -= 1
     ledger.update_history = watched_update
     chaos_mod.install_db(ch)
     observations = []
@@ -445,6 +450,28 @@ async def run_schedule(rec, scen, sched_seed, case):
             accounts.append(acc)
             await ledger.subscribe_account(acc)
         await _quiesce(ledger)
+        streaming = bool(case.get('streaming', sched_seed % 3 == 2))
+        overlapped = set()
+        # pauses between two steps of the server, in loop iterations: from "all at once" to "longer than one address update takes", so
+        # that a third notification for an address can arrive after the first update ended and while the second is running
+        gaps = r.choice([[0, 0, 1, 2, 5, 12], [5, 20, 60, 150], [30, 100, 300, 600], [0, 10, 100, 400]])
+
+        def notify_now():
+            # streaming delivery: the status of every address the last step touched goes out at once, while the wallet may still be
+            # working on earlier notifications for the same address (its history changes between two of its own history requests)
+            out = []
+            for a, h160 in list(server.subscribed.items()):
+                st = chain.status(h160)
+                if st != server.last_sent.get(a):
+                    server.last_sent[a] = st
+                    out.append((a, st))
+            r.shuffle(out)
+            for a, st in out:
+                if inflight.get(a):
+                    overlapped.add(a)
+                ledger.process_status_update((a, st))
+            return out
+
         for si, steps in enumerate(scen['stages']):
             # ---- the server's chain grows
             for kind, arg in steps:
@@ -466,6 +493,15 @@ async def run_schedule(rec, scen, sched_seed, case):
                     ch.enabled = True
                     if added != 1:
                         raise RuntimeError('harness: sim header rejected')
+                if streaming:
+                    notify_now()
+                    for _ in range(r.choice(gaps)):
+                        await asyncio.sleep(0)
+            if streaming:
+                rec.hit('stream.stages')
+                if overlapped:
+                    rec.hit('stream.notified_while_same_address_update_in_flight', len(overlapped))
+                    overlapped.clear()
             # ---- notifications for every subscribed address whose status changed, in seeded random order, concurrently
             changed = []
             for a, h160 in list(server.subscribed.items()):
